@@ -227,18 +227,17 @@ pub fn record_hops(out_path: &str, count: u64) {
                     if path.len() >= 3 && rng.chance(2, 3) || model == "big" && (to == "toml" || (to == "yaml" && i != 5) || path.len() >= 3) {
                         continue;
                     }
-                    let reader = if model == "big" {
-                        // large documents: a reader that fills whatever it is offered, one with 64 KiB reads, or a slice
-                        match rng.below(3) {
-                            0 => Some(Sched::All),
-                            1 => Some(Sched::Fixed(65536)),
-                            _ => None,
-                        }
+                    // large documents meet every supply at every hop: a slice, a reader that fills whatever it is
+                    // offered, one with 64 KiB reads; the others a slice or small random reads
+                    let supplies: Vec<Option<Sched>> = if model == "big" {
+                        vec![None, Some(Sched::All), Some(Sched::Fixed(65536))]
                     } else if rng.chance(1, 2) {
-                        Some(Sched::Random(Rng::new(rng.next()), 9))
+                        vec![Some(Sched::Random(Rng::new(rng.next()), 9))]
                     } else {
-                        None
+                        vec![None]
                     };
+                    let mut pushed = false;
+                    for reader in supplies {
                     let (res, out, msg) = xlate(bytes, Some(from), to, reader);
                     let vt = *via_toml || to == "toml" && path.len() > 1 || from == "toml" && path.len() > 1 || to == "toml";
                     let (tree, pending) = if model == "big" {
@@ -262,8 +261,10 @@ pub fn record_hops(out_path: &str, count: u64) {
                     o.rec(r);
                     o.sum.eval();
                     o.sum.nontrivial(format!("{vid}/{}", p2.join(">")));
-                    if res == "ok" {
+                    if res == "ok" && !pushed {
+                        pushed = true;
                         next.push((p2, Rc::new(out), vt));
+                    }
                     }
                 }
             }
